@@ -598,7 +598,17 @@ func c14RunVerdict(c *explore.Ctx, order []string, decider string, vd c14Verdict
 				c.Fatal("C14: connect failed")
 				return
 			}
-			suback, _ := x.Subscribe(0, refmqtt.Sub{Filter: "s/a", QoS: 1}, refmqtt.Sub{Filter: "s/b", QoS: 1})
+			// retained messages on every topic involved, stored while the verdict table is off
+			c14.verdict = nil
+			h := w.Dial("H")
+			h.Connect(harness.ConnectOpts{ClientID: "helper", Clean: true, Version: refmqtt.V5})
+			for _, t := range []string{"s/a", "s/b", "s/rewritten"} {
+				h.Send(&refmqtt.Packet{Type: refmqtt.PUBLISH, Topic: t, QoS: 1, PacketID: h.PID(), Retain: true, Payload: []byte("kept:" + t)})
+				vsched.Settle()
+				h.Recv()
+			}
+			c14.verdict = saved
+			suback, replay := x.Subscribe(0, refmqtt.Sub{Filter: "s/a", QoS: 1}, refmqtt.Sub{Filter: "s/b", QoS: 1})
 			if suback == nil || len(suback.Codes) != 2 {
 				c.Violate("subscribe", "no-or-short-suback", cas(), "SUBACK with 2 codes", fmt.Sprint(suback))
 				return
@@ -633,6 +643,51 @@ func c14RunVerdict(c *explore.Ctx, order []string, decider string, vd c14Verdict
 			}
 			if got := subsOf("x"); got != wantSubs {
 				c.Violate("subscribe", "installed-subscriptions-differ-from-verdict-"+vd.verdict, cas(), wantSubs, got)
+			}
+			// what the verdict installed is what takes effect: the retained messages replayed
+			// after the SUBACK and a live message per topic arrive through exactly the installed
+			// subscriptions, at min(1, installed QoS)
+			wantFlow := map[string]string{
+				"accept":         "s/a:q1;s/b:q1",
+				"reject-all":     "",
+				"reject-one":     "s/a:q1",
+				"downgrade":      "s/a:q0;s/b:q1",
+				"rewrite-filter": "s/b:q1;s/rewritten:q1",
+			}[vd.verdict]
+			flow := func(ps []*refmqtt.Packet, prefix string) string {
+				var out []string
+				for _, pk := range ps {
+					if pk != nil && pk.Type == refmqtt.PUBLISH && strings.HasPrefix(string(pk.Payload), prefix) {
+						out = append(out, fmt.Sprintf("%s:q%d", pk.Topic, pk.QoS))
+						if pk.QoS == 1 {
+							x.Send(&refmqtt.Packet{Type: refmqtt.PUBACK, PacketID: pk.PacketID})
+						}
+					}
+				}
+				vsched.Settle()
+				sortStrings(out)
+				return strings.Join(out, ";")
+			}
+			if got := flow(replay, "kept:"); got != wantFlow {
+				cl := "retained-replay-differs-from-verdict-" + vd.verdict
+				if vd.verdict == "downgrade" && strings.Contains(got, "s/a:q1") {
+					cl = "retained-replay-above-the-granted-qos"
+				}
+				c.Violate("subscribe", cl, cas(), wantFlow, got)
+			}
+			c14.verdict = nil
+			for _, t := range []string{"s/a", "s/b", "s/rewritten"} {
+				h.Send(&refmqtt.Packet{Type: refmqtt.PUBLISH, Topic: t, QoS: 1, PacketID: h.PID(), Payload: []byte("live:" + t)})
+				vsched.Settle()
+				h.Recv()
+			}
+			c14.verdict = saved
+			var live []*refmqtt.Packet
+			for _, r := range x.Recv() {
+				live = append(live, r.P)
+			}
+			if got := flow(live, "live:"); got != wantFlow {
+				c.Violate("subscribe", "live-delivery-differs-from-verdict-"+vd.verdict, cas(), wantFlow, got)
 			}
 		case "OnUnsubscribe":
 			if ack := x.Connect(copts); ack == nil || ack.Code != 0 {
